@@ -67,50 +67,58 @@ const maxHops = 40
 
 // walk resolves name. If followLast is false the final component is not
 // dereferenced. It returns the node (nil if missing), its parent, the final
-// name and the fully resolved path of the parent.
+// name and the symlink-free path of the parent directory.
 func (v *FS) walk(op, name string, followLast bool) (n *node, parent *node, base string, realParent string, err error) {
 	if name == "" {
 		return nil, nil, "", "", pathErr(op, name, syscall.ENOENT)
 	}
 	full := v.abs(name)
 	hops := 0
-	var rec func(p string, follow bool) (*node, *node, string, string, error)
-	rec = func(p string, follow bool) (*node, *node, string, string, error) {
+	type res struct {
+		n, parent  *node
+		base       string
+		real       string // symlink-free path of n (or of where n would be)
+		realParent string
+	}
+	var rec func(p string, follow bool) (res, error)
+	rec = func(p string, follow bool) (res, error) {
 		if p == "/" {
-			return v.root, nil, "/", "/", nil
+			return res{n: v.root, base: "/", real: "/", realParent: "/"}, nil
 		}
 		dir, b := path.Split(p)
-		dir = path.Clean(dir)
-		dn, _, _, dreal, err := rec(dir, true)
+		d, err := rec(path.Clean(dir), true)
 		if err != nil {
-			return nil, nil, "", "", err
+			return res{}, err
 		}
-		if dn == nil {
-			return nil, nil, "", "", pathErr(op, name, syscall.ENOENT)
+		if d.n == nil {
+			return res{}, pathErr(op, name, syscall.ENOENT)
 		}
-		if !dn.mode.IsDir() {
-			return nil, nil, "", "", pathErr(op, name, syscall.ENOTDIR)
+		if !d.n.mode.IsDir() {
+			return res{}, pathErr(op, name, syscall.ENOTDIR)
 		}
-		real := path.Join(dreal, b)
-		c := dn.children[b]
+		real := path.Join(d.real, b)
+		c := d.n.children[b]
 		if c == nil {
-			return nil, dn, b, dreal, nil
+			return res{n: nil, parent: d.n, base: b, real: real, realParent: d.real}, nil
 		}
 		if c.mode&fs.ModeSymlink != 0 && follow {
 			hops++
 			if hops > maxHops {
-				return nil, nil, "", "", pathErr(op, name, syscall.ELOOP)
+				return res{}, pathErr(op, name, syscall.ELOOP)
 			}
 			t := c.target
 			if !strings.HasPrefix(t, "/") {
-				t = path.Join(dreal, t)
+				t = path.Join(d.real, t)
 			}
 			return rec(path.Clean(t), true)
 		}
-		_ = real
-		return c, dn, b, dreal, nil
+		return res{n: c, parent: d.n, base: b, real: real, realParent: d.real}, nil
 	}
-	return rec(full, followLast)
+	r, err := rec(full, followLast)
+	if err != nil {
+		return nil, nil, "", "", err
+	}
+	return r.n, r.parent, r.base, r.realParent, nil
 }
 
 func (v *FS) note(op, name, realParent, base string) {
